@@ -636,6 +636,8 @@ pub fn run<'tcx>(tcx: TyCtxt<'tcx>) -> String {
         rn.ip.lin_tier = cap.is_some();
         rn.ip.atomize = job.opts.get("atomize").map(|s| s.split('|').map(|x| x.to_string()).collect()).unwrap_or_default();
         rn.ip.atomize_count.clear();
+        rn.ip.prod_atoms.clear();
+        rn.ip.dump_args_pats = job.opts.get("dump_args").map(|s| s.split('|').map(|x| x.to_string()).collect()).unwrap_or_default();
         rn.ip.ident_pats = job.opts.get("identity").map(|s| s.split('|').map(|x| x.to_string()).collect()).unwrap_or_default();
         rn.ip.track_ret = job.opts.get("track_ret").map(|s| s.split('|').map(|x| x.to_string()).collect()).unwrap_or_default();
         rn.ip.probe_pats = job.opts.get("probe").map(|s| s.split('|').map(|x| x.to_string()).collect()).unwrap_or_default();
